@@ -176,12 +176,28 @@ type verifC17RbfSigner struct {
 	proposals int
 	lastTx    *wire.MsgTx // tx of the latest successful CreateCloseProposal
 	lastFee   int64
+	// lock != 0: this party, when it is the CLOSER, proposes closing
+	// transactions with this lock time. lnd's closer announces
+	// Environment.BlockHeight as the lock time of closing_complete but
+	// (BlockHeight being zero in production) signs with lock time 0; the
+	// wrapper makes the closer sign what it announces, i.e. it turns lnd's
+	// closer into a conforming peer that proposes a non-zero lock time. The
+	// option is put FIRST, so the explicit lock time a closee passes (the one
+	// of the message it received) overrides it.
+	lock uint32
+}
+
+func (s *verifC17RbfSigner) withLock(opts []lnwallet.ChanCloseOpt) []lnwallet.ChanCloseOpt {
+	if s.lock == 0 {
+		return opts
+	}
+	return append([]lnwallet.ChanCloseOpt{lnwallet.WithCustomLockTime(s.lock)}, opts...)
 }
 
 func (s *verifC17RbfSigner) CreateCloseProposal(fee btcutil.Amount, local, remote []byte,
 	opts ...lnwallet.ChanCloseOpt) (input.Signature, *wire.MsgTx, btcutil.Amount, error) {
 
-	sig, tx, bal, err := s.ch.CreateCloseProposal(fee, local, remote, opts...)
+	sig, tx, bal, err := s.ch.CreateCloseProposal(fee, local, remote, s.withLock(opts)...)
 	if err == nil {
 		s.proposals++
 		s.lastTx, s.lastFee = tx.Copy(), int64(fee)
@@ -193,7 +209,7 @@ func (s *verifC17RbfSigner) CompleteCooperativeClose(localSig, remoteSig input.S
 	local, remote []byte, fee btcutil.Amount, opts ...lnwallet.ChanCloseOpt) (*wire.MsgTx,
 	btcutil.Amount, error) {
 
-	return s.ch.CompleteCooperativeClose(localSig, remoteSig, local, remote, fee, opts...)
+	return s.ch.CompleteCooperativeClose(localSig, remoteSig, local, remote, fee, s.withLock(opts)...)
 }
 
 var _ CloseSigner = (*verifC17RbfSigner)(nil)
@@ -983,6 +999,7 @@ func verifC17RbfCase(vc *lnwallet.VerifCtx, i int) {
 	chanPoint := chans[0].ChannelPoint()
 	chanID := lnwire.NewChanIDFromOutPoint(chanPoint)
 	nonceRng := r.Fork("nonces")
+	heightRng := nonceRng.Fork("blockheight")
 	for k := 0; k < 2; k++ {
 		k := k
 		obs := &verifC17RbfObserver{ch: chans[k], link: r.Chance(3, 4)}
@@ -1005,6 +1022,20 @@ func verifC17RbfCase(vc *lnwallet.VerifCtx, i int) {
 		}
 		if prodEst {
 			env.FeeEstimator = &SimpleCoopFeeEstimator{}
+		}
+		// Environment.BlockHeight ("the current block height") is what a
+		// closer puts into closing_complete as the transaction's lock
+		// time. lnd's peer code leaves it zero; any other configuration
+		// (the two parties at the same height, one block apart, only one
+		// of them configured) must still make both sides sign one and
+		// the same transaction. Own PRNG stream (forked off the nonce
+		// stream, the case's main stream is not consumed).
+		if heightRng.Chance(1, 2) {
+			env.BlockHeight = []uint32{0, height, height - 1, height + 1, 1}[heightRng.Intn(5)]
+			signer.lock = env.BlockHeight
+			if env.BlockHeight != 0 {
+				vc.Count("rbf_parties_with_block_height", 1)
+			}
 		}
 		if up := chans[k].RemoteUpfrontShutdownScript(); len(up) != 0 {
 			env.RemoteUpfrontShutdown = fn.Some(up)
